@@ -14,6 +14,9 @@
     trunc_err                      no proper prefix is accepted
     chunk_indep, chunked_roundtrip the transport may fragment the stream arbitrarily
     enc_bytes                      encodings are byte strings
+    signed_byte_roundtrip, signed_byte_range, signed_field_roundtrip
+                                   the signed one-byte fields (`LogDimensions`) carry exactly
+                                   [-128, 127], two's complement, and round-trip on all of it
     recv_indep                     the decoded value does not depend on the receiver, for every
                                    lattigo type and every prior state of the receiver
     recv_indep_clean               … and the exact condition on a format for that
@@ -44,9 +47,9 @@ open Lattigo.Codec
 
 /-- the 45-character text `big.Float.Text('e', 39)` prints for 0 -/
 def zeroText : Val := .bytes (strBytes "0.000000000000000000000000000000000000000e+00")
-/-- metadata `Scale = (0, mod 0)`, `IsBatched`, `LogDimensions = (0, 3)`, `IsNTT` -/
+/-- metadata `Scale = (0, mod 0)`, `IsBatched`, `LogDimensions = (-1, 3)`, `IsNTT` -/
 def metaEx : Val :=
-  .pair (.pair (.pair zeroText zeroText) (.pair (.num 1) (.pair (.num 0) (.pair (.num 0) (.num 3)))))
+  .pair (.pair (.pair zeroText zeroText) (.pair (.num 1) (.pair (.num 0) (.pair (.int (-1)) (.int 3)))))
     (.pair (.num 1) (.num 0))
 /-- a degree-1 ciphertext at level 0 over `N = 2` with metadata -/
 def ctEx : Val :=
@@ -168,6 +171,33 @@ example : (decC u64 [[1], [], [0, 0], [0, 0, 0, 0, 0, 9]]).map (fun p => (p.1, p
 theorem enc_bytes (f : Fmt) (v : Val) (hf : FmtBytes f) (hv : ValBytes f v) : IsBytes (enc f v) :=
   enc_isBytes f v hf hv
 
+/-! ### signed one-byte fields (`PlaintextMetaData.LogDimensions`) -/
+
+/-- **signed_byte_roundtrip.** The convention of the wire format: an `int` in `[-128, 127]` is
+    stored as its two's-complement byte (`uint8(z)`) and read back with `int(int8(b))`; this is
+    the identity on the whole signed range. -/
+theorem signed_byte_roundtrip (z : Int) (h1 : -128 ≤ z) (h2 : z ≤ 127) :
+    toByte z < 256 ∧ fromByte (toByte z) = z :=
+  ⟨toByte_lt z, fromByte_toByte z h1 h2⟩
+
+/-- **signed_byte_range.** Conversely every byte decodes into `[-128, 127]` and re-encodes to
+    itself: the decoder can never produce `256 + v` for a negative `v`. -/
+theorem signed_byte_range (n : Nat) (h : n < 256) :
+    -128 ≤ fromByte n ∧ fromByte n ≤ 127 ∧ toByte (fromByte n) = n :=
+  ⟨(fromByte_range n h).1, (fromByte_range n h).2, toByte_fromByte n h⟩
+
+/-- **signed_field_roundtrip.** The field as it sits on the wire (two hex digits). -/
+theorem signed_field_roundtrip (z : Int) (h1 : -128 ≤ z) (h2 : z ≤ 127) (rest : List Nat) :
+    dec .shex2 (enc .shex2 (.int z) ++ rest) = some (.int z, rest) :=
+  Codec.roundtrip .shex2 (.int z) rest ⟨z, rfl, h1, h2⟩
+
+example : enc .shex2 (.int (-1)) = strBytes "ff" ∧ enc .shex2 (.int (-128)) = strBytes "80" ∧
+    enc .shex2 (.int 127) = strBytes "7f" := by decide
+example : dec .shex2 (strBytes "ff") = some (.int (-1), []) := by rfl
+/-- outside the range the encoder (Go `uint8(z)`) truncates: 200 comes back as -56. This is why
+    `WT` asks for `[-128, 127]` (see the probe `byte_field_range`). -/
+example : dec .shex2 (enc .shex2 (.int 200)) = some (.int (-56), []) := by rfl
+
 /-! ### allocation -/
 
 /-- **bounded_alloc.** On EVERY input `bs`, every allocation the decoder requests before
@@ -236,6 +266,9 @@ end Lattigo.C08
 #print axioms Lattigo.C08.chunk_indep
 #print axioms Lattigo.C08.chunked_roundtrip
 #print axioms Lattigo.C08.enc_bytes
+#print axioms Lattigo.C08.signed_byte_roundtrip
+#print axioms Lattigo.C08.signed_byte_range
+#print axioms Lattigo.C08.signed_field_roundtrip
 #print axioms Lattigo.C08.bounded_alloc
 #print axioms Lattigo.C08.bounded_alloc_honest
 #print axioms Lattigo.C08.recv_indep_fresh
